@@ -609,6 +609,9 @@ class ModelSpec:
         """
         return self.update(
             formula=self.formula.differentiate(*wrt, use_sympy=use_sympy),
+            # The structure recorded during materialization describes the terms
+            # of the original formula, not those of its derivative.
+            structure=None,
         )
 
     # Only include dataclass fields when pickling.
